@@ -8,9 +8,12 @@ from harness import core
 MODULE = 'PyPhysim.Properties.C16'
 DRIVER = 'drv_c16'
 CLAIM = {
-    'technique': 'Lean 4 theorems over R with an abstract Gaussian-tail function Q (order/limit algebra, d_min '
-                 'geometry of the modelled constellations) + numeric correspondence of every coefficient and '
-                 'Q-argument, Q evaluated independently with math.erfc',
+    'technique': 'Lean 4 theorems over R: order/limit algebra for an abstract Gaussian-tail function Q, d_min geometry '
+                 'of the modelled constellations, and - with Q the actual Gaussian tail of Mathlib\'s gaussianReal - '
+                 'measure-theoretic proofs that the formulas are the AWGN error rates of the modelled nearest-point '
+                 'detector (BPSK / square QAM exact, PSK within [exact, 2 exact]) + formulas regenerated from the '
+                 'source + numeric correspondence of every coefficient and Q-argument, Q evaluated independently '
+                 'with math.erfc and by quadrature of the normal density',
     'text': 'Kernel-checked for every modulator order, every SNR and every packet length: SER/BER/PER are in [0,1], '
             'antitone in SNR, tend to 0; BER <= SER <= k BER (PSK equality SER = k BER); PER = 1-(1-BER)^L, '
             'SE = K(1-PER); and the argument of Q in each formula equals d_min/(2 sigma) of the constellation the '
@@ -25,9 +28,15 @@ CLAIM = {
             '(16 eps (4+arg^2), no absolute floor) and are told apart. (R16) a caller refilling ONE argument array in '
             'place, passing dropped temporaries or one array in two roles gets the pure function of the contents at '
             'call time and earlier results never change (call machine Model/CallsC16.lean + histories on the code).',
-    'note': 'Partial: Q is abstract (IsQ: antitone, Q 0 = 1/2, >= 0, -> 0); that the formulas are the exact AWGN '
-            'error rates for BPSK/QAM and a bound within [exact, 2 exact] for PSK is a statement about Gaussian '
-            'integrals and is NOT proved - only its algebraic half (formula structure vs constellation geometry). '
+    'note': 'The Gaussian half of the property is a theorem since round 5 (Proofs/C16Gauss, C16Exact, C16ExactQam, '
+            'C16ExactPsk): Qg x = P(N > x) for N ~ N(0,1) satisfies IsQ (gaussian_tail_is_Q); bpsk_ser_is_exact; '
+            'qam_ser_exact for every L >= 2 (decision cell of every grid point under independent N(0, 1/(2 gamma)) '
+            'noise components: (1 - c_j Q)(1 - c_i Q), averaged); psk_ser_between_exact_and_twice for every M >= 2 '
+            '(projection law of isotropic noise, pairwise error probability, Voronoi lemma); all for every labelling '
+            'of the points. Trusted for this clause: that the code\'s qfunc(x) = 0.5 erfc(x / sqrt 2) IS Qg (Mathlib '
+            'has no erfc) - checked numerically against math.erfc and against adaptive quadrature of the normal '
+            'density over (x, oo) at 1e-10 relative down to Q = 5e-198 (oracle qfunc.gauss); that the detector of the '
+            'code is the C01 model\'s demod / bpskDemod (C01 correspondence); equiprobable symbols; binary64. '
             'Order relations are compared in binary64 with absolute slack 2^-52 (1-(1-P)^2 cancels to 0.0 for '
             'P < 2^-53 while 2P/k > 0). scipy.special.erfc is an oracle checked against math.erfc. The R15 / R16 '
             'theorems live in PyPhysim.Properties.C16Robust (built and axiom-audited by the check as a second module); '
@@ -634,7 +643,12 @@ def o_refillfn(case):
     return None
 
 
-ORACLES = {'close': o_close, 'closefn': o_closefn, 'refill': o_refill, 'roles': o_roles, 'refillfn': o_refillfn,
+def o_qfunc_gauss(case):
+    from harness.props import c16_gauss
+    return c16_gauss.o_qfunc_is_gaussian_tail(case)
+
+
+ORACLES = {'qfunc.gauss': o_qfunc_gauss, 'close': o_close, 'closefn': o_closefn, 'refill': o_refill, 'roles': o_roles, 'refillfn': o_refillfn,
            'offsets': o_offsets, 'calls': o_calls, 'curves': o_curve, 'limit': o_limit, 'qfunc': o_qfunc}
 
 
@@ -1040,7 +1054,8 @@ def check(ctx):
     lengths = [1, 2, 10, 1000] if quick else [1, 2, 3, 10, 100, 1000, 10000]
     core.prove(ctx, MODULE, generated=['C16Formulas'], drivers=[DRIVER], scratch=ctx.scratch)
     prove_extra(ctx)
-    ctx.required_branches = ['curve:BPSK', 'curve:PSK', 'curve:QAM', 'curve:QPSK'] + R_BRANCHES + R_CORR_BRANCHES
+    ctx.required_branches = ['curve:BPSK', 'curve:PSK', 'curve:QAM', 'curve:QPSK',
+                             'qfunc-is-the-gaussian-tail-integral'] + R_BRANCHES + R_CORR_BRANCHES
     try:
         correspondence(ctx, psk_max, qam_max, snrs, lengths)
     except core.Infra as e:
@@ -1063,6 +1078,10 @@ def check(ctx):
                                   'L': ctx.rng.choice([1, 7, 100])}, key=('calls', kind, M))
     for x in [0.0, 0.1, 1.0, 2.5, 5.0, 10.0, 20.0, 37.0, -1.0, -6.0] + [ctx.rng.uniform(-8, 38) for _ in range(40)]:
         run_oracle(ctx, 'qfunc', {'x': x})
+    from harness.props import c16_gauss
+    for x in c16_gauss.GRID + [ctx.rng.uniform(-8, 38) for _ in range(10 if ctx.tier == 'quick' else 200)]:
+        run_oracle(ctx, 'qfunc.gauss', {'x': x})
+        ctx.branch('qfunc-is-the-gaussian-tail-integral')
     ctx.sample({'call': 'SER/BER.QAM', 'M': 16, 'snr': 10.0, 'compare': 'coef*Q(arg) from the Lean model vs calcTheoreticalSER'})
     ctx.sample({'call': 'curves', 'kind': 'PSK', 'M': 8, 'checks': 'in [0,1], antitone, BER<=SER<=k BER, PER, SE, SER from measured d_min'})
 
